@@ -152,7 +152,7 @@ PK['fiber'] = dict(pkg='fiber', extra='//@ func fiber.Ctx.UserContext\n//@   noc
    nextarg='callarg("fiber.Ctx.Next", 0, 0) == c',
    attached='ncalls("fiber.Ctx.SetUserContext") == ite(callret("godi.Provider.CreateScope", 0, 1) == nil, 1, 0) && ncalls("fiber.Ctx.Locals") == ncalls("fiber.Ctx.SetUserContext") && (ncalls("fiber.Ctx.SetUserContext") == 1 ==> callarg("fiber.Ctx.SetUserContext", 0, 1) == pure("godi.Scope.Context", callret("godi.Provider.CreateScope", 0, 0, "godi.Scope")) && callarg("fiber.Ctx.Locals", 0, 1) == box(scopeKey, "string") && (forall a int :: 0 <= a && a < ncalls("fnvar:mw") ==> calltime("fiber.Ctx.Locals", 0) < calltime("fnvar:mw", a)) && (forall a int :: 0 <= a && a < ncalls("fiber.Ctx.Next") ==> calltime("fiber.Ctx.Locals", 0) < calltime("fiber.Ctx.Next", a)))',
    loopattached='ncalls("fiber.Ctx.SetUserContext") == 1 && ncalls("fiber.Ctx.Locals") == 1 && callarg("fiber.Ctx.SetUserContext", 0, 1) == pure("godi.Scope.Context", scope) && callarg("fiber.Ctx.Locals", 0, 1) == box(scopeKey, "string") && calltime("fiber.Ctx.Locals", 0) < clock && (forall a int :: 0 <= a && a < idx ==> calltime("fiber.Ctx.Locals", 0) < calltime("fnvar:mw", a))',
-   hcaptured='c != nil', hreqctx='', herridx=2, fromctx=False, close_on_panic=False)
+   hcaptured='c != nil', hreqctx='', herridx=2, fromctx=False)
 
 for k, P in PK.items():
     txt = HEAD.format(pkg=P['pkg'], extra=P['extra']) + mw(P) + handle(P)
